@@ -38,4 +38,9 @@ HX int h_plan_then_history(int pk, int pn, const int* kinds, const int* lens, in
     arr_real r = (*p3)(mk_cmplx(x, pn)); put_real(r, y); return r.size();
     H_END
 }
+// a rejected request (exception) followed by an accepted one: the second result must not depend on the first
+HX int h_after_reject(int k0, int n0, int k1, int n1, const double* x, double* y) {
+    try { std::vector<double> tmp(4 * 64 + 8); one(k0, n0, x, tmp.data()); } catch (...) {}
+    H_TRY return one(k1, n1, x, y); H_END
+}
 HX int h_capacity() { return verif_fft_cache_capacity(); }
